@@ -1,8 +1,16 @@
 package rules
 
 import (
+	"go/ast"
+	"go/constant"
+	"go/parser"
 	"go/token"
 	"go/types"
+	"os/exec"
+	"path/filepath"
+	"runtime"
+	"sort"
+	"strconv"
 	"strings"
 
 	"golang.org/x/tools/go/ssa"
@@ -29,6 +37,9 @@ func runC19(ctx *core.Ctx) {
 	ctx.Rule("B1", "one interpreter of the tag set: in package imports a tags parameter (map[string]bool) is indexed with a non-constant key only inside the single function that implements the android=>linux and '*' rules (the function that reads tags[\"android\"]); constant-key reads are exempt", 1)
 	ctx.Rule("B2", "mechanisms present in that function: every 'return true' short-circuit is dominated by tags[\"*\"], name != \"\" and name != \"ignore\"; tags[\"android\"] is consulted exactly under name == \"linux\" and flows into the result, which is compared with the wanted polarity; a character outside letters/digits/_/. returns false before the polarity is looked at", 4)
 	ctx.Rule("B3", "combinators: in the term evaluator a comma yields the conjunction of the two recursive results, '!!' is false, '!x' calls the tag interpreter on x (non-empty) with want=false, a plain term with want=true; in ShouldBuild the line verdict becomes true only under a successful term match and the overall verdict only ever changes to false, and only when a +build line had no matching term", 6)
+	ctx.Rule("B5", "known-name tables: the OS and architecture list constants contain every name of the reference lists (those of the pinned tree), no duplicates, and nothing beyond them that the toolchain's go/build does not list as known; KnownOS and KnownArch are filled from the fields of these constants", 4)
+	ctx.Rule("B6", "the file name is cut at its first dot (no LastIndex-derived cut)", 1)
+	ctx.Rule("B7", "blank lines are recognised after removing white space on both sides", 1)
 	ctx.Rule("B4", "totality of ShouldBuild and MatchFile (bounds engine)", 20)
 	p := ctx.P
 	sp := p.Pkg("imports")
@@ -446,8 +457,181 @@ func runC19(ctx *core.Ctx) {
 		}
 		return ""
 	}})
-	// informational: lists vs GOROOT
-	_ = strings.Fields
+	// ---- B5: the known-OS and known-architecture tables
+	{
+		refOS := strings.Fields("aix android darwin dragonfly freebsd hurd illumos ios js linux nacl netbsd openbsd plan9 solaris windows zos")
+		refArch := strings.Fields("386 amd64 amd64p32 arm armbe arm64 arm64be loong64 mips mipsle mips64 mips64le mips64p32 mips64p32le ppc ppc64 ppc64le riscv riscv64 s390 s390x sparc sparc64 wasm")
+		goOS, goArch := goKnownLists()
+		tp := p.TPkg("imports")
+		for _, t := range []struct {
+			constName, table string
+			ref       []string
+			goList    map[string]bool
+		}{{"goosList", "KnownOS", refOS, goOS}, {"goarchList", "KnownArch", refArch, goArch}} {
+			var val string
+			found := false
+			if tp != nil && tp.Types != nil {
+				if c, ok := tp.Types.Scope().Lookup(t.constName).(*types.Const); ok && c.Val().Kind() == constant.String {
+					val, found = constant.StringVal(c.Val()), true
+				}
+			}
+			key := "imports." + t.constName
+			if !found {
+				ctx.Unknown("B5", key, token.NoPos, "list constant %s not found", t.constName)
+				continue
+			}
+			have := map[string]bool{}
+			var bad []string
+			for _, w := range strings.Fields(val) {
+				if have[w] {
+					bad = append(bad, "duplicate "+w)
+				}
+				have[w] = true
+			}
+			for _, w := range t.ref {
+				if !have[w] {
+					bad = append(bad, "missing "+w)
+				}
+			}
+			inRef := map[string]bool{}
+			for _, w := range t.ref {
+				inRef[w] = true
+			}
+			for w := range have {
+				if !inRef[w] && (t.goList == nil || !t.goList[w]) {
+					bad = append(bad, "unknown word "+strconv.Quote(w))
+				}
+			}
+			sort.Strings(bad)
+			note := ""
+			if t.goList == nil {
+				note = " (go/build's own list was not readable; additions are compared with the reference only)"
+			}
+			ctx.Check(len(bad) == 0, "B5", key, token.NoPos, "%s holds every name of the reference list and nothing that go/build does not know%s %v", t.constName, note, bad)
+			// the table is filled from that constant
+			fills := false
+			for _, f := range fns {
+				graph(p, f).Instrs(func(i ssa.Instruction) {
+					mu, ok := i.(*ssa.MapUpdate)
+					if !ok {
+						return
+					}
+					if u, ok := mu.Map.(*ssa.UnOp); ok {
+						if g, ok := u.X.(*ssa.Global); ok && g.Name() == t.table {
+							if ssax.DerivedFrom(mu.Key, func(v ssa.Value) bool { s, ok := ssax.ConstString(v); return ok && s == val }, func(c *ssa.Call) bool { return strings.HasPrefix(ssax.CalleeName(&c.Call), "strings.") }) {
+								fills = true
+							}
+						}
+					}
+				})
+			}
+			ctx.Check(fills, "B5", "imports."+t.table+"#filled", token.NoPos, "%s is filled from the fields of %s", t.table, t.constName)
+		}
+	}
+	// ---- B6 / B7: how MatchFile and ShouldBuild cut their input
+	if mf := p.Func("imports", "MatchFile"); mf != nil {
+		g := graph(p, mf)
+		name := mf.Params[0]
+		n := 0
+		g.Instrs(func(i ssa.Instruction) {
+			sl, ok := i.(*ssa.Slice)
+			if !ok || sl.X != ssa.Value(name) || sl.High == nil || sl.Low != nil {
+				return
+			}
+			// name[:dot]
+			n++
+			last := ssax.DerivedFrom(sl.High, func(v ssa.Value) bool {
+				c, ok := v.(*ssa.Call)
+				return ok && strings.HasPrefix(ssax.CalleeName(&c.Call), "strings.LastIndex")
+			}, nil)
+			ctx.Check(!last, "B6", "imports.MatchFile#first-dot"+itoa(n), sl.Pos(), "the file name is cut at its first '.', as go/build does (x_windows.pb.go is a windows file; cutting at the last '.' leaves 'x_windows.pb' and the suffix rule no longer sees the OS)")
+		})
+		if n == 0 {
+			ctx.Note("B6", "imports.MatchFile#first-dot", mf.Pos(), "no name[:i] cut found in MatchFile (the extension may be removed by strings.Cut or similar); nothing to check")
+		}
+	}
+	if sb := p.Func("imports", "ShouldBuild"); sb != nil {
+		g := graph(p, sb)
+		n := 0
+		g.Instrs(func(i ssa.Instruction) {
+			b, ok := i.(*ssa.BinOp)
+			if !ok || b.Op != token.EQL {
+				return
+			}
+			k, isK := ssax.ConstInt(b.Y)
+			ln, isLen := b.X.(*ssa.Call)
+			if !isK || k != 0 || !isLen || !isBuiltinCall(ln, "len") {
+				return
+			}
+			// a blank-line test: the tested value must come out of a trim
+			var trims []*ssa.Call
+			ssax.DerivedFrom(ln.Call.Args[0], func(v ssa.Value) bool {
+				c, ok := v.(*ssa.Call)
+				if ok && (strings.HasPrefix(ssax.CalleeName(&c.Call), "bytes.Trim") || strings.HasPrefix(ssax.CalleeName(&c.Call), "strings.Trim")) {
+					trims = append(trims, c)
+				}
+				return false
+			}, nil)
+			if len(trims) == 0 {
+				return
+			}
+			n++
+			two := false
+			for _, c := range trims {
+				switch strings.TrimPrefix(strings.TrimPrefix(ssax.CalleeName(&c.Call), "bytes."), "strings.") {
+				case "TrimSpace":
+					two = true
+				case "Trim":
+					if cs, ok := ssax.ConstString(c.Call.Args[1]); ok && strings.Contains(cs, " ") && strings.Contains(cs, "\t") && strings.Contains(cs, "\r") {
+						two = true
+					}
+				}
+			}
+			ctx.Check(two, "B7", "imports.ShouldBuild#blank-line"+itoa(n), b.Pos(), "the blank-line test looks at the line with white space removed on both sides, so that a CRLF-terminated empty line (\"\\r\") ends the leading comment block as it does for go/build")
+		})
+		if n == 0 {
+			ctx.Bad("B7", "imports.ShouldBuild#blank-line", sb.Pos(), "no blank-line test found in ShouldBuild")
+		}
+	}
+}
+
+// goKnownLists reads knownOS and knownArch from the toolchain's own
+// go/build/syslist.go (parsed, not imported); nil maps when unavailable.
+func goKnownLists() (map[string]bool, map[string]bool) {
+	root := runtime.GOROOT()
+	if out, err := exec.Command("go", "env", "GOROOT").Output(); err == nil && strings.TrimSpace(string(out)) != "" {
+		root = strings.TrimSpace(string(out))
+	}
+	f, err := parser.ParseFile(token.NewFileSet(), filepath.Join(root, "src", "go", "build", "syslist.go"), nil, 0)
+	if err != nil {
+		return nil, nil
+	}
+	read := func(name string) map[string]bool {
+		var out map[string]bool
+		ast.Inspect(f, func(n ast.Node) bool {
+			vs, ok := n.(*ast.ValueSpec)
+			if !ok || len(vs.Names) != 1 || vs.Names[0].Name != name || len(vs.Values) != 1 {
+				return true
+			}
+			cl, ok := vs.Values[0].(*ast.CompositeLit)
+			if !ok {
+				return true
+			}
+			out = map[string]bool{}
+			for _, e := range cl.Elts {
+				if kv, ok := e.(*ast.KeyValueExpr); ok {
+					if bl, ok := kv.Key.(*ast.BasicLit); ok {
+						if s, err := strconv.Unquote(bl.Value); err == nil {
+							out[s] = true
+						}
+					}
+				}
+			}
+			return false
+		})
+		return out
+	}
+	return read("knownOS"), read("knownArch")
 }
 
 func orZero(v ssa.Value) ssa.Value {
